@@ -594,6 +594,13 @@ def run(ck):
         c07.rule_b(ck, R)
     finally:
         ck.rule, ck.verdict, ck.violation, ck.broken, ck.floor, ck.holds = keep0
+    engw = R.engine({'raw_with_hdcrc', 'raw_with_plcrc'})
+    psw = R.paths('parse_header', 'C08.b', engw)
+    if psw is not None:
+        ns = engw.narrowing_stores(psw)
+        ck.verdict(not ns, 'C08.b', 'parse_header:field-widths', R.where('parse_header'),
+                   'the receiver keeps every header field at its wire width (round trip of the 16/32-bit fields)' if not ns else
+                   '%s <- %s: %s' % (fmt(ns[0][0].name), ns[0][1], ns[0][2]))
     # serial frames leave through rfc1055_encode: its escape table and delimiters (decided as C12.a/b) are an obligation
     # of "every emitted frame is well-formed on the wire" too; they are re-evaluated here under C08.d
     from . import c12
